@@ -11,6 +11,7 @@ enum { SCHED_DEADLOCK = 1, SCHED_HANG = 2, SCHED_STEP_LIMIT = 3 };
 typedef struct {
   int max_steps;                /* horizon: scheduling points per execution (0 = 600) */
   int trace;                    /* 1 = log every context switch with vx_obs */
+  long pipe_capacity;           /* bytes a pipe created inside the session can hold (0 = the kernel's capacity) */
   /* called (on whatever thread detected it) when no progress is possible; must call vx_fail.
    * kind: SCHED_*; desc: one line per thread "T<i> <state> <op>".  After it returns the execution ends. */
   void (*on_stuck) (int kind, const char *desc);
